@@ -130,7 +130,7 @@ static void canon(qtreetbl_t *t, const model_t *m, int withwalk, char *out) {
 }
 
 /* ------------------------------------------------------------------ operations */
-enum { OP_PUT, OP_REMOVE, OP_CLEAR, OP_WALK, OP_ABANDON, OP_NEAREST, OP_NEARWALK, OP_CYCLE };
+enum { OP_PUT, OP_REMOVE, OP_CLEAR, OP_WALK, OP_ABANDON, OP_NEAREST, OP_NEARWALK, OP_CYCLE, OP_WALKREMOVE };
 typedef struct { int kind, k, v, j, nm; const char *label; } op_t;
 static op_t OPS[512]; static int NOPS; static int MODE_WALK, WITH_CYCLES;
 static blob_t PROBE[2 * MAXU + 2]; static int NPROBE;
@@ -215,6 +215,29 @@ static void do_abandon(qtreetbl_t *t, model_t *m, int j) {
     while (c < j && t->getnext(t, &ob, false)) c++;
     m->unfinished = (c == j);
 }
+/* the documented "removal example in iteration loop": walk; for the j-th element (j = 0: for every element) keep a copy of
+ * the name, removeobj, rewind with find_nearest. A modified table need not be swept completely (C03 does not apply), but the
+ * loop must end, touch no freed node, return only keys that are stored at that moment, and remove exactly what it was told */
+static long n_walkrm;
+static void do_walkremove(qtreetbl_t *t, model_t *m, int j, int check, const char *after) {
+    qtreetbl_obj_t ob; memset(&ob, 0, sizeof ob);
+    int steps = 0, n0 = m_count(m);
+    while (t->getnext(t, &ob, false)) {
+        if (++steps > 3 * (n0 + 2)) { if (check) vc_viol("walkrm:endless", "%s: removal loop returned more than %d entries from %d keys", after, steps, n0); break; }
+        int id = ob.name ? keyid(ob.name, ob.namesize) : -1;
+        if (id < 0 || !m->present[id]) { if (check) vc_viol("walkrm:foreign-key", "%s: step %d of the removal loop returned a key that is not stored", after, steps); break; }
+        if (j == 0 || steps == j) {
+            size_t ns = ob.namesize; void *name = malloc(ns); memcpy(name, ob.name, ns);
+            bool r = t->removeobj(t, ob.name, ob.namesize);
+            if (check && !r) vc_viol("walkrm:remove-failed", "%s: removeobj of the element just returned failed", after);
+            m->present[id] = 0;
+            ob = t->find_nearest(t, name, ns, false);
+            memset(name, 0xA5, ns); free(name);
+            if (check) n_walkrm++;
+        }
+    }
+    m->unfinished = 0;
+}
 /* nearest: returns -1 if the search did not terminate */
 static int do_nearest(qtreetbl_t *t, model_t *m, int p, int cont, int newmem, int check, const char *after) {
     int n = m_count(m);
@@ -279,6 +302,7 @@ static int apply(qtreetbl_t *t, model_t *m, const op_t *op, int check, const cha
         case OP_WALK: do_walk(t, m, op->nm, check, after); break;
         case OP_ABANDON: do_abandon(t, m, op->j); break;
         case OP_CYCLE: for (int i = 0; i < op->j; i++) do_abandon(t, m, 1); break;   /* hundreds of traversal starts in one step */
+        case OP_WALKREMOVE: do_walkremove(t, m, op->j, check, after); break;
         case OP_NEAREST: return do_nearest(t, m, op->k, 0, op->nm, check, after);
         case OP_NEARWALK: return do_nearest(t, m, op->k, 1, op->nm, check, after);
     }
@@ -294,6 +318,7 @@ static void build_ops(void) {
     OPS[NOPS++] = (op_t){OP_WALK, 0, 0, 0, 1, "qtreetbl_getnext"};
     OPS[NOPS++] = (op_t){OP_ABANDON, 0, 0, 1, 0, "qtreetbl_getnext"};
     OPS[NOPS++] = (op_t){OP_ABANDON, 0, 0, 2, 0, "qtreetbl_getnext"};
+    for (int j = 0; j <= 3; j++) OPS[NOPS++] = (op_t){OP_WALKREMOVE, 0, 0, j, 0, "qtreetbl_getnext"};
     /* depth-bounded runs only (in a closure they add no state): k one-step walks as one operation, k around a full
      * cycle of the 8-bit traversal epoch, so that "more than 256 traversal starts" is within reach of a short history */
     if (WITH_CYCLES) for (int k = 253; k <= 258; k++) OPS[NOPS++] = (op_t){OP_CYCLE, 0, 0, k, 0, "qtreetbl_getnext"};
@@ -396,10 +421,10 @@ static int search(int maxdepth) {
                         if (strcmp(ckey, ckey2)) { printf("NOTE\treplay divergence on %s\n", key); vc_stat_add("replay_divergence", 1); }
                     }
                     if (b.nnodes <= 3 || (b.nnodes % 50000) == 0) {
-                        static const char *KN[] = {"put", "remove", "clear", "walk", "abandon-after", "nearest", "nearest+walk", "one-step-walks x"};
+                        static const char *KN[] = {"put", "remove", "clear", "walk", "abandon-after", "nearest", "nearest+walk", "one-step-walks x", "walk-removing-element"};
                         char txt[700], *q = txt; int shown = d > 12 ? 12 : d;
                         if (d > shown) q += sprintf(q, "... (%d earlier ops) ", d - shown);
-                        for (int i = d - shown; i <= d && q - txt < 600; i++) { const op_t *o = &OPS[i < d ? hist[i] : op]; q += snprintf(q, 48, "%s(%d%s) ", KN[o->kind], o->kind == OP_ABANDON || o->kind == OP_CYCLE ? o->j : o->k, o->kind == OP_PUT ? (o->v == 0 ? ",v0" : o->v == 1 ? ",v1" : ",empty") : ""); }
+                        for (int i = d - shown; i <= d && q - txt < 600; i++) { const op_t *o = &OPS[i < d ? hist[i] : op]; q += snprintf(q, 48, "%s(%d%s) ", KN[o->kind], o->kind == OP_ABANDON || o->kind == OP_CYCLE || o->kind == OP_WALKREMOVE ? o->j : o->k, o->kind == OP_PUT ? (o->v == 0 ? ",v0" : o->v == 1 ? ",v1" : ",empty") : ""); }
                         vc_sample("history [%s] -> state %s", txt, ckey);
                     }
                 }
@@ -409,7 +434,7 @@ static int search(int maxdepth) {
     }
     vc_stat_add("states", b.nkeys);
     vc_stat_add("transitions", n_trans - n_replays_checked);
-    vc_stat_add("max_depth", b.max_depth);
+    vc_stat_add("max_depth", b.max_depth); vc_stat_add("removals_inside_walks", n_walkrm);
     vc_stat_add("structure_checks", n_struct_checks);
     vc_stat_add("fournode_states", n_fournode_states);
     vc_stat_add("copies_verified", n_copies_checked);
